@@ -189,3 +189,8 @@ def run(ctx):
             ctx.unrecognised("C19.R5", "_inject_schema", inj_f.where(c), "flag update not reachable from the call")
     if n_loops < 2:
         ctx.unrecognised("C19.R5", "_inject_schema", inj_f.where(), f"{n_loops} recursive calls inside loops (expected the union and the record-fields loops)")
+
+    c19_funcs = {"_parse_schema_with_repo", "load_schema", "_load_schema", "load_schema_ordered"}
+    ctx.borrow("C17", {"C17.R1": "C19.R6"}, "types registered in the caller's name table by a failed attempt are what lets a type used from several places resolve on the retry: the loader may add to that table, never clear or roll it back", only=lambda o: o["where"].split(":")[1].split(".")[-1] in c19_funcs if ":" in o["where"] else False)
+
+
